@@ -386,6 +386,18 @@ func init() {
 		}
 		return nil, false
 	}
+	// zzv.Feasible(cond): can cond hold on this path? (satisfiability, decided by the solver)
+	intrinsics["Feasible"] = func(w *Worker, s *State, f *Frame, fn *ssa.Function, a []Value, d int) (Value, bool) {
+		c := w.term(a[0])
+		if c.Const {
+			return c, false
+		}
+		r := w.check(s.pc, c)
+		if r == "error" {
+			panic(unsupported{"solver error on Feasible query: " + lastSolverError})
+		}
+		return w.tc.Bool(r != "unsat"), false
+	}
 	// zzv.Preemptions(): number of preemptive switches so far (engine-only observation)
 	intrinsics["Preemptions"] = func(w *Worker, s *State, f *Frame, fn *ssa.Function, a []Value, d int) (Value, bool) {
 		return w.tc.BV(64, uint64(s.preempts)), false
